@@ -382,7 +382,7 @@ class FTPFS(FS):
     """
 
     _meta = {
-        "invalid_path_chars": "\0",
+        "invalid_path_chars": "\0\r\n",
         "network": True,
         "read_only": False,
         "thread_safe": True,
